@@ -9,8 +9,12 @@ also checks with real primitives that `bh=` / `b=` are over exactly these string
 reader's (`Spec/DkimVerifier.lean`, written from RFC 6376 §3.4/§3.7/§5.4.2).
 
 Proved for every message: the body half (both canonicalizations), its invariance under the
-CRLF that SMTP DATA framing supplies (C03), and that signing adds the signature field and
-nothing else.  The header half,
+CRLF that SMTP DATA framing supplies (C03), that signing adds the signature field and
+nothing else, and that the relaxed header canonicalization kernel equals RFC 6376 §3.4.2
+field by field on well-formed header blocks (whatever the folding), and that for header maps without
+repeated names the covered fields are exactly the RFC 5.4.2 selection for every `h=` list
+(`signed_fields_input_agrees`).  The rest of the header half — the signature field itself, whose
+folding changes between hashing and emission —,
 
     theorem header_input_agrees_partial (cfg) (m) (h : cfg.hc = .relaxed) (hu : Unique m.mh …) :
         headerInput opts cfg ts m = (DkimVerifier.view (sign … m).format).headerInput
@@ -46,6 +50,32 @@ theorem body_transport_invariant (relaxed : Bool) (b : Bytes) :
   cases relaxed
   · simpa [DkimVerifier.bodyCanon] using simpleBody_crlf b
   · simpa [DkimVerifier.bodyCanon] using relaxedBody_crlf b
+
+/-- **Relaxed header canonicalization.** On any header block in the shape `Headers` prints and lettre's encoder folds
+    (names in lower case without colon, values whose every CR LF is a fold, no fold right after the blanks that follow
+    the colon — `WFField`, checked on every generated message by the driver), the signer's kernel
+    (`dkim_canonicalize_headers_relaxed`, transcribed as `relH`) produces, field by field, exactly RFC 6376 §3.4.2:
+    unfolded, runs of white space reduced to one SP, no white space at the end of the value nor after the colon. This is
+    the function applied both to the covered fields and to the DKIM-Signature field itself before hashing. -/
+theorem relaxed_header_canon_agrees (hs : List HV) (hw : ∀ h ∈ hs, WFField h) :
+    relH .name (display hs) = (hs.map fun h => DkimVerifier.relaxedField (fld h)).flatten :=
+  relH_display hs hw
+
+/-- …in particular folding does not matter: value mode gives the same on a folded value and on its unfolded text. -/
+theorem relaxed_value_fold_invariant (v x : Bytes) (hv : wfValue v = true) :
+    relH .value (v ++ 13 :: x) = relH .value (HeaderReader.unfold v ++ 13 :: x) :=
+  relH_value_unfold v x hv
+
+/-- **Which fields are hashed, and in which form (relaxed).** For a header map without repeated names whose fields are
+    in the shape lettre emits (`WFMailField`; the driver checks `mailFieldOk` on every field of every generated message),
+    and for *every* `h=` list — subsets, absent names, repeated names, any letter case —: what the signer hashes for the
+    covered fields is the concatenation of the RFC 6376 §3.4.2 canonical forms of exactly the fields an RFC 6376 §5.4.2
+    reader selects from the message (`insert_raw` de-duplication = bottom-up selection with one instance per name). -/
+theorem signed_fields_input_agrees (names : List Bytes) (mail : List HV) (hu : Unique mail)
+    (hw : ∀ h ∈ mail, WFMailField h) :
+    canonHeaders opts .relaxed names mail =
+      ((DkimVerifier.select names (mail.map fld)).map DkimVerifier.relaxedField).flatten :=
+  Dkim.signed_fields_input_agrees names mail hu hw
 
 /-- Signing touches nothing but the message-level header map… -/
 theorem sign_keeps_body_and_part_headers (sigOf : Bytes → Bytes) (cfg : Cfg) (ts : Nat) (m : Msg) :
